@@ -353,6 +353,58 @@ def run(ctx):
                              sent_ids[:12], errs[:1], (0x7D, back.payload) in echoed, srv.errors[:1]),
                           {'script': [s_[0] for s_ in script], 'login_threshold': thr0, 'play_threshold': thr1},
                           key={'kind': 'session47', 'thr0': thr0, 'thr1': thr1, 'ids': sent_ids})
+    # ---- two sessions on ONE Connection: the first negotiates compression (and sometimes encryption) and ends by the server
+    # dropping the TCP connection; the exception handler connects again (the documented pattern, no disconnect() call); the
+    # second server announces nothing: its frames must be delivered and it must be able to read the client's frames
+    for trial in range(ctx.scale(8, 60)):
+        thr = [0, 64, 300, 1][trial % 4]
+        first = [('compress', thr)] + ([('encrypt', '-', b'tk')] if trial % 3 == 0 else []) + [('success',), ('raw', 0x7E, b'one'), ('close',)]
+        sent2 = [(rng.choice([0x7E, 0x7F, 0x6F, 300]), bytes(rng.randrange(256) for _ in range(rng.choice([0, 1, 7, 63, 64, 65, 400]))))
+                 for _ in range(rng.randrange(1, 8))]
+        second = [('success',)] + [('raw', i_, b_) for i_, b_ in sent2]
+        cfgs = [{'version': 757, 'script': first, 'rsa': '1024'}, {'version': 757, 'script': second, 'rsa': '1024'}]
+        made, errs, seen = [], [], []
+
+        def factory(sock, cfgs=cfgs, made=made):
+            srv = RefServer(sock, cfgs[min(len(made), 1)])
+            made.append(srv)
+            return srv
+        with simnet.Net(factory) as net:
+            def on_exc(e, i):
+                errs.append(type(e).__name__)
+                if len(errs) == 1:
+                    conn.connect()
+            conn = C.Connection('h', 1, username='u', allowed_versions={757}, handle_exception=on_exc)
+            conn.register_packet_listener(lambda p: seen.append((len(made), p.id)) if type(p) is P_.Packet else None, P_.Packet)
+            conn.connect()
+            net.run_threads()
+        ctx.case(('two-sessions', trial, thr, tuple(i_ for i_, _ in sent2)))
+        ctx.count('session.two-sessions')
+        got2 = [i_ for n_, i_ in seen if n_ == 2]
+        s2 = made[1] if len(made) > 1 else None
+        if s2 is None or got2 != [i_ for i_, _ in sent2] or len(errs) != 1 or s2.errors or s2.handshake is None \
+                or s2.handshake.get('protocol') != 757 or s2.login_name != 'u':
+            ctx.violation('session 1 (Set Compression %d%s) is dropped by the server, the exception handler connects again; session 2 (nothing '
+                          'announced, %d frames): delivered ids %r of %r, errors %r, second server read handshake %r / login name %r / parse errors %r'
+                          % (thr, ', encryption' if trial % 3 == 0 else '', len(sent2), got2[:10], [i_ for i_, _ in sent2][:10], errs[:3],
+                             s2 and s2.handshake, s2 and s2.login_name, s2 and s2.errors[:1]),
+                          {'threshold': thr, 'encrypted_first': trial % 3 == 0}, key={'kind': 'two-sessions', 'thr': thr, 'enc': trial % 3 == 0})
+    # ---- frames stay contiguous when several threads write (the scheduler scenarios of corr/c12.py; judged here only on the
+    # byte stream: whole, well-formed frames of issued packets, none twice)
+    from corr import c12 as c12s
+    for i in range(ctx.scale(30, 400)):
+        progs = c12s.gen_programs(rng)
+        transport = ['plain', 'compressed', 'encrypted'][i % 3]
+        bias = rng.random()
+
+        def choose(en, n, bias=bias):
+            if 0 in en and rng.random() < bias * 0.7:
+                return 0
+            return rng.choice(en)
+        r = c12s.scenario(C, E, progs, choose, transport)
+        ctx.case(('writers-stream', c12s.prog_str(progs), transport, tuple(r['ran'])))
+        ctx.count('writers-stream.' + transport)
+        c12s.oracle(ctx, progs, r, transport, 'several writer threads (%s transport)' % transport, stream_only=True)
     # ---- a write that fails while the packet is being serialised (nothing has been sent) must leave nothing behind:
     # the next packet written by the same thread is framed exactly as if the failed one had never been attempted
     for trial in range(ctx.scale(40, 400)):
